@@ -165,6 +165,29 @@ def LibEvents.toList (l : LibEvents) : List (Rat × DEvt) :=
   ++ l.admixtures.map (fun m => (m.time, DEvt.admix m.parents m.proportions m.child))
   ++ l.splits.map (fun s => (s.time, DEvt.split s.parent s.children))
 
+/-- the demes library's `Graph.discrete_demographic_events()` (demes 0.2): every deme with ONE ancestor is the child of a split of that
+    ancestor when it starts at the ancestor's end time (the children of one parent are collected in a set: their order is unspecified —
+    here graph order), of a branch otherwise; a deme with SEVERAL ancestors is a merger when every ancestor ends at its start time, an
+    admixture otherwise; the pulses are the graph's.  Hand-written from the library's source, tied by K (`c16g classify`). -/
+def classifyEvents (g : Graph InEpoch) : LibEvents :=
+  let splitPairs : List (DName × DName) := g.demes.filterMap fun c =>
+    match c.ancestors with
+    | [a] => if decide (c.start = g.endTimeOf a) then some (a, c.name) else none
+    | _ => none
+  { pulses := g.pulses.map fun p => { sources := p.sources, dest := p.dest, proportions := p.props, time := p.time }
+    branches := g.demes.filterMap fun c =>
+      match c.ancestors with
+      | [a] => if decide (c.start = g.endTimeOf a) then none else some { parent := a, child := c.name, time := tval c.start }
+      | _ => none
+    mergers := g.demes.filterMap fun c =>
+      if decide (c.ancestors.length > 1) && c.ancestors.all (fun a => decide (c.start = g.endTimeOf a))
+      then some { parents := c.ancestors, proportions := c.proportions, child := c.name, time := tval c.start } else none
+    admixtures := g.demes.filterMap fun c =>
+      if decide (c.ancestors.length > 1) && !c.ancestors.all (fun a => decide (c.start = g.endTimeOf a))
+      then some { parents := c.ancestors, proportions := c.proportions, child := c.name, time := tval c.start } else none
+    splits := (splitPairs.foldl (fun (d : PyDD DName DName) p => ddAppend d p.1 p.2) []).map fun q =>
+      { parent := q.1, children := q.2, time := tval (g.endTimeOf q.1) } }
+
 /-! ### what `_make_nu_func` returns -/
 
 inductive NuEntry
